@@ -46,6 +46,13 @@ class B(A):
     pass
 
 
+class C(A):
+    """An array-like value: it has no truth value of its own (asking for one is an error), it is an A all the same."""
+
+    def __bool__(self):
+        raise ValueError('the truth value of an array is ambiguous')
+
+
 generated.register(A, 'A')
 generated.register(B, 'B')
 TYPES = {'int': int, 'str': str, 'A': A, 'B': B, 'intstr': (int, str), 'dict': dict, 'OD': collections.OrderedDict,
@@ -152,7 +159,7 @@ def _good_value(rng, vt):
     if vt == 'str':
         return rng.choice(['s', ''])
     if vt == 'A':
-        return rng.choice(['@A', '@B'])
+        return rng.choice(['@A', '@B', '@C'])
     if vt == 'B':
         return '@B'
     if vt == 'intstr':
@@ -308,6 +315,8 @@ def _real(value):
         return A()
     if value == '@B':
         return B()
+    if value == '@C':
+        return C()
     if isinstance(value, dict):
         out = {k: _real(v) for k, v in value.items() if k not in ('@OD', '@UD', '@FD', '@LEAF')}
         for k, v in value.items():
